@@ -204,6 +204,15 @@ def rng_dict(streams, seed=0):
   return {s: jax.random.fold_in(jax.random.key(seed), i + 1) for i, s in enumerate(streams)}
 
 
+def dtypes_of(*trees):
+  """dtype names of every array in the outputs / variable trees (the programs compute in int64 throughout)"""
+  names = set()
+  for t in trees:
+    for leaf in jax.tree_util.tree_leaves(t):
+      names.add(str(np.asarray(leaf).dtype))
+  return sorted(names)
+
+
 def run_apply(module, variables, x, streams, mutable, seed=0, **kw):
   """returns dict(out=..., vars=..., trace=...) or dict(err=...)"""
   del TRACE[:]
@@ -214,7 +223,7 @@ def run_apply(module, variables, x, streams, mutable, seed=0, **kw):
       out, upd = r, None
     else:
       out, upd = r
-    return {'out': [int(a) for a in np.asarray(out).reshape(-1)], 'vars': None if upd is None else canon_vars(upd), 'trace': list(TRACE)}
+    return {'out': [int(a) for a in np.asarray(out).reshape(-1)], 'vars': None if upd is None else canon_vars(upd), 'trace': list(TRACE), 'dtypes': dtypes_of(out, upd)}
   except Exception as e:  # pylint: disable=broad-except
     return {'err': classify(e), 'trace': list(TRACE)}
 
@@ -225,7 +234,7 @@ def run_init(module, x, streams, seed=0, with_output=True, **kw):
     if with_output:
       out, v = module.init_with_output(rng_dict(streams, seed), x, **kw)
       jax.effects_barrier()
-      return {'out': [int(a) for a in np.asarray(out).reshape(-1)], 'vars': canon_vars(v), 'trace': list(TRACE), 'raw': v}
+      return {'out': [int(a) for a in np.asarray(out).reshape(-1)], 'vars': canon_vars(v), 'trace': list(TRACE), 'raw': v, 'dtypes': dtypes_of(out, v)}
     v = module.init(rng_dict(streams, seed), x, **kw)
     return {'vars': canon_vars(v), 'trace': list(TRACE), 'raw': v}
   except Exception as e:  # pylint: disable=broad-except
